@@ -226,7 +226,7 @@ def check(rep, an, tier):
                                       entry=entry, config=res.config,
                                       msg=f"with relative=False the {lab} still depends on {o}: numerator and denominator of the fractional gamut "
                                           f"are taken in different capture spaces")
-            R.rule_effect_free(rep, res, entry)
+            R.rule_effect_free(rep, res, entry, reg=_reg(an))
     rep.require("R-QTY", 8)
     rep.require("R-FORWARD", 30)
     rep.require("R-SEED", 4)
@@ -311,3 +311,8 @@ def scale_free_decisions(rep, res, entry):
                   entry=entry, config=res.config,
                   msg="an absolute tolerance (1e-8) is compared with values in the caller's units: for inputs on a small absolute scale distinct "
                       "points / distributions are declared equal, so the metric is no longer homogeneous in (or invariant to) the scale")
+
+
+def _reg(an):
+    from .C14 import registration_writes
+    return registration_writes(an)
